@@ -99,7 +99,7 @@ CHECKS["C09"] = {
     "harnesses": [
         {"name": "c09::n50_11", "bound": "1 wall + 1 window + optional construction; areas, C_h, V on {0..3}, C_o in {16,29}, test value on {0..3} or absent", "kani_args": NOOVF, "cbmc_args": FS2K, "stubs": FMT,
          "functions": ["N50Data::from(&EnergyProps)"]},
-        {"name": "c09::n50_22", "tier": "off", "mem_gb": 40, "bound": "2 walls + 2 windows, same grids", "kani_args": NOOVF, "cbmc_args": FS2K, "stubs": FMT,
+        {"name": "c09::n50_22", "tier": "thorough", "mem_gb": 40, "timeout_thorough": 2700, "bound": "2 walls + 2 windows, same grids", "kani_args": NOOVF, "cbmc_args": FS2K, "stubs": FMT,
          "functions": ["N50Data::from(&EnergyProps)"]},
     ],
 }
